@@ -24,6 +24,7 @@ ASSUMPTIONS = [
     'a time-out may surface as UsbReadFailedError(timeout) or AdbTimeoutError',
     'histories are single-threaded, so the multiplexer is deterministic (threads are C14)',
     'a history ends at the first call that is expected to raise a protocol error',
+    'a history also ends, without a verdict, when a local id is reused while device packets addressed to the earlier stream with that id are still unread (only possible with the lowered id limits)',
 ]
 REQUIRED_COUNTERS = ['connect_sequences', 'host_messages_compared',
                      'stream_ops_compared', 'ids_checked', 'closes_checked']
@@ -373,6 +374,13 @@ class StreamModel:
   # ops ------------------------------------------------------------------
   def open_sent(self, local, reply):
     """The host has sent OPEN(local); the reactive device replies."""
+    if any(m[2] == local for m in self.inbound):
+      # Device packets addressed to an earlier stream with this local id are
+      # still unread: the protocol cannot tell them from packets for the new
+      # stream (real ids are not reused that fast).  Nothing is specified
+      # about such a history; it ends here without a verdict.
+      self.poisoned = True
+      self.stale_reuse = True
     s = {'local': local, 'remote': None, 'state': 'pending', 'queue': [],
          'buf': [], 'in_map': True, 'expecting_okay': True, 'data_fed': [],
          'data_read': []}
@@ -501,6 +509,9 @@ def run_streams(case):
       got = result_of(lambda: conn.open_stream(
           'svc:%d' % i, timeout_ms=20000))
       s = pending.get('stream')
+      if model.poisoned:
+        counters['histories_ended_by_stale_id_reuse'] = 1
+        break
       if s is None:
         # no OPEN was sent: only id exhaustion is an acceptable reason
         in_use = sum(1 for x in model.streams if x['in_map'])
